@@ -921,7 +921,7 @@ pub fn redefined_symbol_cases() -> Vec<(Vec<(u8, String, Value)>, SetCase)> {
         for way in 0..6u8 {
             let mut fns = BTreeMap::new();
             fns.insert("fa".to_string(), me::FnSpec { cacheable: true, fail_on: vec![], fail_first: 0, uncacheable_after: 0 });
-            fns.insert("fd".to_string(), me::FnSpec { cacheable: true, fail_on: vec![], fail_first: 0, uncacheable_after: 0 });
+            fns.insert("fc".to_string(), me::FnSpec { cacheable: true, fail_on: vec![], fail_first: 0, uncacheable_after: 0 });
             let mut symbols = BTreeMap::new();
             symbols.insert("s".to_string(), new.clone());
             symbols.insert("other".to_string(), Value::Int(7));
@@ -930,7 +930,7 @@ pub fn redefined_symbol_cases() -> Vec<(Vec<(u8, String, Value)>, SetCase)> {
                 ("call-symbol".into(), Expr::func("fa", Expr::symbol("s"))),
                 ("call-earlier-value".into(), Expr::func("fa", lit(old))),
                 ("call-final-value".into(), Expr::func("fa", lit(new))),
-                ("call-symbol-again".into(), Expr::Vec(vec![Expr::func("fa", Expr::symbol("s")), Expr::func("fd", Expr::symbol("s")), Expr::func("fd", lit(old))])),
+                ("call-symbol-again".into(), Expr::Vec(vec![Expr::func("fa", Expr::symbol("s")), Expr::func("fc", Expr::symbol("s")), Expr::func("fc", lit(old))])),
                 ("has-silver".into(), Expr::contains(Expr::symbol("s"), Expr::value("silver".to_string()))),
                 ("other".into(), Expr::func("fa", Expr::symbol("other"))),
             ];
